@@ -311,6 +311,55 @@ def run_reuse_sources(ctx):
                 break
 
 
+def run_reply_sources(ctx):
+    """the frames the library writes BY ITSELF (the pong answering a ping, the reply to the server's close frame), on
+    several connections of one process used one after the other, each with its own key source (custom A, custom B, the
+    default OS randomness): each reply is masked with a key drawn once from the source of the connection that writes it.
+    Oracle only."""
+    import os
+    import websocket
+    rnd = ctx.rng("reply-sources")
+    old = os.urandom
+    for it in range(80 if ctx.thorough() else 24):
+        order = [rnd.choice("ABd") for _ in range(rnd.randint(2, 4))]
+        kinds = [rnd.choice(["close", "ping", "close"]) for _ in order]
+        draws = {"A": [], "B": [], "d": []}
+
+        def src(name):
+            def f(k):
+                draws[name].append(k)
+                return bytes([ord(name), 0x30 + len(draws[name]), 0x5f, ord(name)])[:k] if k == 4 else old(k)
+            return f
+        os.urandom = src("d")
+        bad = None
+        try:
+            for j, (nm, kind) in enumerate(zip(order, kinds)):
+                frame = simnet.srv_frame(8, b"\x03\xe8") if kind == "close" else simnet.srv_frame(9, b"pi")
+                ws, sock = simnet.make_ws([("chunk", frame)])
+                if nm != "d":
+                    ws.set_mask_key(src(nm))
+                before = len(draws[nm])
+                try:
+                    ws.recv_data_frame(True)
+                except Exception:  # noqa
+                    pass
+                wire = bytes(sock.sent)
+                exp_key = bytes([ord(nm), 0x30 + before + 1, 0x5f, ord(nm)])
+                got_key = wire[2:6]
+                if len(draws[nm]) - before != 1 or got_key != exp_key or len(wire) < 6 or not (wire[1] & 0x80):
+                    bad = (j, nm, kind, wire.hex(), exp_key.hex(), len(draws[nm]) - before)
+                    break
+        finally:
+            os.urandom = old
+        ctx.case(key=("reply-sources", it, tuple(order), tuple(kinds)), nontrivial=len(set(order)) > 1, cls=f"automatic-replies-across-connections:n={len(order)}")
+        if bad:
+            j, nm, kind, wire, exp, nd = bad
+            ctx.violate("key-drawn-once-per-frame", "automatic-reply-key-from-another-connection's-source",
+                        {"op": "connections used one after the other, each receiving a frame it answers by itself",
+                         "key_source_per_connection": order, "frame_received": kinds, "connection": j},
+                        f"a masked reply with key {exp} drawn once from source {nm}", f"wire {wire}, draws from that source: {nd}", size=len(order))
+
+
 def run(ctx):
     ctx.rule = ("one send per case: payload length (quick: 0..300, 65400..65700, 40 random; thorough: every 0..70000 + "
                 "sampled to 2^22) x opcode (all six when <=125 bytes) x FIN x key source (set_mask_key bytes / ASCII str / "
@@ -370,6 +419,7 @@ def run(ctx):
         ctx.traces_vs_impl += len(res["cases"])
     run_reuse(ctx)
     run_reuse_sources(ctx)
+    run_reply_sources(ctx)
 
 
 def _to_str(b):
